@@ -352,6 +352,10 @@ func (x *Exec) loadAddr(st *State, a *Addr) Val {
 			return out
 		}
 		copy(out.L, cell.L[a.Off:a.Off+len(ls)])
+		if a.Off == 0 && len(ls) == len(cell.L) && cell.Fn != nil {
+			// a function literal kept in a local variable stays known
+			out.Fn, out.Bindings = cell.Fn, cell.Bindings
+		}
 	case AHeap:
 		all := x.tc.leaves(a.contT)
 		for i := range ls {
@@ -405,7 +409,13 @@ func (x *Exec) storeAddr(st *State, a *Addr, v Val) {
 		} else {
 			copy(nl[a.Off:], v.L)
 		}
-		st.locals[al] = Val{T: cell.T, L: nl}
+		nc := Val{T: cell.T, L: nl}
+		if a.ArrIdx == nil && a.Off == 0 && len(v.L) == len(cell.L) {
+			if _, isFn := v.Fn.(*ssa.Function); isFn {
+				nc.Fn, nc.Bindings = v.Fn, v.Bindings
+			}
+		}
+		st.locals[al] = nc
 		if x.dry {
 			x.dryEff.locals[al] = true
 		}
